@@ -157,7 +157,7 @@ fn froms_for(item: &Item) -> Vec<Option<Fmt>> {
 }
 
 pub fn run(ctx: &Ctx) -> i32 {
-    let n_mixed = ctx.size(2500, 60000);
+    let n_mixed = ctx.size(2500, 300000);
     let max_tok = if ctx.thorough() { 5 } else { 4 };
     let opts = GenOpts::common();
     // work list: mixed items, then token sequences per format and length
@@ -212,7 +212,7 @@ pub fn run(ctx: &Ctx) -> i32 {
         }
     });
     // large valid streams: many buffer refills, documents straddling 8 KiB boundaries
-    let n_large = ctx.size(64, 1500);
+    let n_large = ctx.size(64, 5000);
     let large = crate::par::run(n_large, 1, |i, acc| {
         let mut rng = Rng::derive(seed, 0xc02b, i as u64);
         let f = [Fmt::Json, Fmt::Msgpack, Fmt::Yaml][i % 3];
